@@ -1,4 +1,5 @@
 import SeqIoModel.Proofs.WriteRoundtrip
+import SeqIoModel.Proofs.EndToEnd
 /-!
 # C10 – FASTA writing round-trips and wraps at the requested width
 
@@ -63,5 +64,37 @@ theorem ref_record_write_wrap_eq (h : List UInt8) (lines : List (List UInt8)) (w
 
 /-- non-vacuity: the hypotheses are satisfiable and the statement is about a real record -/
 example : HeadOk [105, 100, 32, 100] ∧ SeqOk [65, 67, 71, 84, 65, 67] ∧ (0 < 4) := by decide
+
+/-! ## end to end: written text read back by the concrete reader M at every configuration
+(composition with C01's `fasta_reading_is_spec`) -/
+
+/-- a record written by `write_to` / `OwnedRecord::write`, read with the FASTA reader at ANY capacity ≥ 3,
+never-refusing policy and chunking: exactly that header and sequence, then end of input -/
+theorem written_record_reads_back (h s : List UInt8) (hh : HeadOk h) (hsq : SeqOk s)
+    (cap : Nat) (hcap : 3 ≤ cap) (pol : Pol) (hpol : PolOk pol) (script : List ReadEv)
+    (hs : FillProofs.NoFail script) (chunk k : Nat) :
+    ∃ r : FaRec, r.head = h ∧ r.seq = s ∧ r.byte = 0 ∧ r.line = 1 ∧
+      Fasta.runNexts k (Fasta.mkReader (Write.faTo h s) cap pol script chunk) =
+        ([Fasta.Obs.record r.head r.seqLines r.line r.byte] ++ List.replicate k Fasta.Obs.none).take k :=
+  E2E.fasta_written_record_reads_back h s hh hsq cap hcap pol hpol script hs chunk k
+
+/-- many records written back to back are read back as the same list -/
+theorem written_records_read_back (rs : List (List UInt8 × List UInt8))
+    (hok : ∀ p ∈ rs, HeadOk p.1 ∧ SeqOk p.2)
+    (cap : Nat) (hcap : 3 ≤ cap) (pol : Pol) (hpol : PolOk pol) (script : List ReadEv)
+    (hs : FillProofs.NoFail script) (chunk k : Nat) :
+    ∃ recs : List FaRec, recs.map (fun r => (r.head, r.seq)) = rs ∧
+      Fasta.runNexts k (Fasta.mkReader (rs.flatMap fun p => Write.faTo p.1 p.2) cap pol script chunk) =
+        (recs.map (fun r => Fasta.Obs.record r.head r.seqLines r.line r.byte) ++ List.replicate k Fasta.Obs.none).take k :=
+  E2E.fasta_written_records_read_back rs hok cap hcap pol hpol script hs chunk k
+
+/-- wrapped output is read back as the header and the unwrapped sequence -/
+theorem wrapped_record_reads_back (h s : List UInt8) (w : Nat) (hw : 0 < w) (hh : HeadOk h) (hsq : SeqOk s)
+    (cap : Nat) (hcap : 3 ≤ cap) (pol : Pol) (hpol : PolOk pol) (script : List ReadEv)
+    (hs : FillProofs.NoFail script) (chunk k : Nat) :
+    ∃ (out : List UInt8) (r : FaRec), Write.faOwnedWrap h s w = some out ∧ r.head = h ∧ r.seq = s ∧
+      Fasta.runNexts k (Fasta.mkReader out cap pol script chunk) =
+        ([Fasta.Obs.record r.head r.seqLines r.line r.byte] ++ List.replicate k Fasta.Obs.none).take k :=
+  E2E.fasta_wrapped_record_reads_back h s w hw hh hsq cap hcap pol hpol script hs chunk k
 
 end SeqIo.Thm.C10
